@@ -77,6 +77,17 @@ int main (int argc, char **argv) {
 			} }
 			VT ("]}"); VT_END ();
 		}
+		else if (!strcmp (op, "lappfail")) {    /* memory runs out for the node: the call returns the list it was given, unchanged */
+			PList *r; sscanf (line, "%*s %d", &a); ga_fail_next = 1; r = p_list_append (lst, (ppointer) vmap[a]); ga_fail_next = 0;
+			vt_emit ("{\"e\":\"lappfail\",\"x\":%d,\"same\":%d}", a, r == lst ? 1 : 0); if (r != lst && r) lst = r;
+		}
+		else if (!strcmp (op, "hkeysfail")) {   /* memory runs out for the a-th node of a listing: the other keys are still listed */
+			PList *l; int n = 0; PList *it; sscanf (line, "%*s %d", &a);
+			if (!ht) continue;
+			ga_fail_next = a; l = p_hash_table_keys (ht); ga_fail_next = 0;
+			for (it = l; it; it = it->next) n++;
+			VT ("{\"e\":\"hkeysfail\",\"n\":%d,\"len\":%d,\"keys\":", a, n); emit_list (l, 1, 1); VT ("}"); VT_END (); p_list_free (l);
+		}
 		else if (!strcmp (op, "lapp")) { sscanf (line, "%*s %d", &a); lst = p_list_append (lst, (ppointer) vmap[a]); vt_emit ("{\"e\":\"lapp\",\"x\":%d}", a); }
 		else if (!strcmp (op, "lpre")) { sscanf (line, "%*s %d", &a); lst = p_list_prepend (lst, (ppointer) vmap[a]); vt_emit ("{\"e\":\"lpre\",\"x\":%d}", a); }
 		else if (!strcmp (op, "lrem")) { sscanf (line, "%*s %d", &a); lst = p_list_remove (lst, (ppointer) vmap[a]); vt_emit ("{\"e\":\"lrem\",\"x\":%d}", a); }
